@@ -34,8 +34,13 @@ def run(ctx):
     beh = el.need(sim, "Script sim")
     ctx.sample({"from": "MC_Script_sim", "behaviour": beh[0]})
     ctx.sample({"from": "MC_Script_more", "behaviour": el.need(more, "more runs")[-1]})
-    el.script_replay(ctx, "C07", beh, "all", mutate=8 if thorough else 3)
+    el.script_replay(ctx, "C07", beh, "all", mutate=8 if thorough else 3, bodycuts=True)   # + every command body ending early, at every byte
     el.script_replay(ctx, "C07", more.replays, "more", expand=84)
+    # valid transcripts (NULL, v2, PLAIN with the right password, in either role): every command of a handshake that
+    # gets that far, with its body ending early at every byte - the parsers behind the happy path
+    tv = ctx.model_check("MC_Script", "MC_Script_simopen.cfg", workers=1, simulate=1500 if thorough else 300, depth=80, seed=ctx.seed + 5, timeout=900)
+    tp = ctx.model_check("MC_Script", "MC_Script_simtranscripts_plain.cfg", workers=1, simulate=1500 if thorough else 300, depth=80, seed=ctx.seed + 6, timeout=900)
+    el.script_replay(ctx, "C07", el.need(tv, "open transcripts") + el.need(tp, "PLAIN transcripts"), "cuts", bodycuts=True)
     # MAXMSGSIZE verdicts through every decoder entry point (C03's replay, limit kinds only)
     path = os.path.join(ctx.work, "wire_limit.jsonl")
     out = os.path.join(ctx.work, "wire_limit.out")
